@@ -671,6 +671,22 @@ impl TypedExpr {
                 };
                 Literal::Enum(name, variant_name.clone(), variant)
             }
+            ExprEnum::Range(min, max, UnsignedNumType::Unspecified) => {
+                // a range without a type suffix stands for the elements of the array type that it
+                // was checked against (as a `Range` it would keep the width of an unspecified number)
+                match &ty {
+                    Type::Array(elem_ty, _) | Type::ArrayConst(elem_ty, _) => match **elem_ty {
+                        Type::Unsigned(elem_ty) => Literal::Range(min, max, elem_ty),
+                        Type::Signed(elem_ty) => Literal::Array(
+                            (min..max)
+                                .map(|n| Literal::NumSigned(n as i64, elem_ty))
+                                .collect(),
+                        ),
+                        _ => Literal::Range(min, max, UnsignedNumType::Unspecified),
+                    },
+                    _ => Literal::Range(min, max, UnsignedNumType::Unspecified),
+                }
+            }
             ExprEnum::Range(min, max, num_ty) => Literal::Range(min, max, num_ty),
             _ => unreachable!("This should result in a literal parse error instead"),
         }
